@@ -168,6 +168,7 @@ class Trainer:
     def __train(self, train_loader, kbar:pkbar.Kbar) -> tuple:
         """ Train model for one epoch """
         self.model.train()
+        if self.evaluator != None: self.evaluator.reset() # the epoch's metrics are those of this epoch's samples only
         epoch_train_loss = 0
         for i, data in enumerate(train_loader):
             *inputs, labels = data
@@ -193,6 +194,7 @@ class Trainer:
     def __validate(self, validation_loader) -> tuple:
         """ Validate model with validation data """
         self.model.eval()
+        if self.evaluator != None: self.evaluator.reset()
         total_val_loss = 0
         with self.engine.no_grad():
             for i, data in enumerate(validation_loader):
